@@ -63,11 +63,19 @@ func funcArrayLen(ctx *Context, this *VMValue, params []*VMValue) *VMValue {
 	return NewIntVal(IntType(len(arr.List)))
 }
 
+// ctxRandSrc 取上下文的随机源，上下文为空或未设置seed时返回nil(即使用全局随机源)
+func ctxRandSrc(ctx *Context) *rand.PCGSource {
+	if ctx == nil {
+		return nil
+	}
+	return ctx.RandSrc
+}
+
 func funcArrayShuttle(ctx *Context, this *VMValue, params []*VMValue) *VMValue {
 	arr, _ := this.ReadArray()
 	lst := arr.List
 	for i := len(lst) - 1; i > 0; i-- { // Fisher–Yates shuffle
-		j := rand.Intn(i + 1)
+		j := int(Roll(ctxRandSrc(ctx), IntType(i+1), 0)) - 1 // 使用上下文的随机源，保证seed可复现
 		lst[i], lst[j] = lst[j], lst[i]
 	}
 	return this
@@ -79,7 +87,7 @@ func funcArrayRand(ctx *Context, this *VMValue, params []*VMValue) *VMValue {
 		ctx.Error = errors.New("(arr.rand)数组为空")
 		return nil
 	}
-	return arr.List[rand.Intn(len(arr.List))]
+	return arr.List[int(Roll(ctxRandSrc(ctx), IntType(len(arr.List)), 0))-1]
 }
 
 func funcArrayRandSize(ctx *Context, this *VMValue, params []*VMValue) *VMValue {
